@@ -8,6 +8,7 @@ import ClusterVerif.Gen.C08Pb
 import ClusterVerif.Lemmas.C08Prod
 import ClusterVerif.Lemmas.C08Add
 import ClusterVerif.Lemmas.C08AddDec
+import ClusterVerif.Lemmas.C08Util
 import ClusterVerif.Gen.C08Add
 
 /-!
@@ -553,5 +554,39 @@ example : fromParams [("shard", "T"), ("raw-leaves", "F"), ("hash", "SHA2-256"),
     some { defaultX with format := "", shard := true, hashFun := "SHA2-256", layout := "trickle" } := by decide
 
 end AddParams
+
+/-! ## api/util.go: the peer-ID string helpers (round 8b; tied by the `str p2s` / `str s2p` cases) -/
+section PeerStrings
+open CV.C08.Util
+
+/-- `StringsToPeers(PeersToStrings(ps))` is `ps` without the empty IDs, order kept -/
+theorem peers_strings_roundtrip (ps : List (Option Nat)) : stringsToPeers (peersToStrings ps) = ps.filterMap id := s2p_p2s ps
+
+/-- … hence the identity on lists of defined peer IDs -/
+theorem peers_strings_roundtrip_partial (ps : List Nat) : stringsToPeers (peersToStrings (ps.map some)) = ps := s2p_p2s_defined ps
+
+example : stringsToPeers (peersToStrings [some 3, some 0, some 3]) = [3, 0, 3] := by decide
+
+/-- the full statement (every list of peer IDs survives, entry by entry) … -/
+def peers_strings_roundtrip_full : Prop := ∀ ps : List (Option Nat), (stringsToPeers (peersToStrings ps)).map some = ps
+
+/-- … is false: the empty ID is written as "" and skipped on the way back (the K40 pattern; positions shift) -/
+theorem peers_strings_roundtrip_full_fails : ¬ peers_strings_roundtrip_full := by
+  intro h
+  have := h [some 1, none, some 2]
+  revert this; decide
+
+/-- `PeersToStrings` keeps the length (one string per ID), `StringsToPeers` never grows the list -/
+theorem peers_strings_lengths (ps : List (Option Nat)) (ss : List SItem) :
+    (peersToStrings ps).length = ps.length ∧ (stringsToPeers ss).length ≤ ss.length := ⟨p2s_length ps, s2p_length_le ss⟩
+
+/-- what `StringsToPeers` returns, written by `PeersToStrings`, reads back unchanged — for ALL string lists (the CID
+    text form of a peer comes back in base58: same peer) -/
+theorem strings_peers_reencode (ss : List SItem) :
+    stringsToPeers (peersToStrings ((stringsToPeers ss).map some)) = stringsToPeers ss := s2p_p2s_defined _
+
+example : stringsToPeers [.cid 4, .junk, .empty, .b58 1] = [4, 1] := by decide
+
+end PeerStrings
 
 end CV.C08.Props
